@@ -1858,8 +1858,6 @@ func (ls *LState) PCall(nargs, nret int, errfunc *LFunction) (err error) {
 				err = rcv.(*ApiError)
 			}
 			if errfunc != nil {
-				ls.Push(errfunc)
-				ls.Push(err.(*ApiError).Object)
 				ls.Panic = panicWithoutTraceback
 				defer func() {
 					ls.Panic = oldpanic
@@ -1882,6 +1880,9 @@ func (ls *LState) PCall(nargs, nret int, errfunc *LFunction) (err error) {
 						ls.reg.SetTop(base)
 					}
 				}()
+				// pushed after the recover above is installed: the registry may still be full
+				ls.Push(errfunc)
+				ls.Push(err.(*ApiError).Object)
 				ls.Call(1, 1)
 				err = newApiError(ApiErrorError, ls.Get(-1))
 			} else if len(err.(*ApiError).StackTrace) == 0 {
